@@ -436,7 +436,12 @@ where
         loop {
             let right_child = self.get_page(current)?.right_child();
             let num_slots = self.get_page(current)?.num_slots();
-            self.accessor_mut()?.release(current);
+            // The root stays latched until the caller is done with the position: writers start at
+            // the root, and one that gets in between the lookup and the use of the position may
+            // have split the very leaf (or turned a one-page root into an interior page).
+            if !self.is_root(current) {
+                self.accessor_mut()?.release(current);
+            }
 
             // If right child is not set it means we have reached up a leaf node.
             if let Some(child) = right_child {
@@ -459,7 +464,10 @@ where
             let left_child = self.get_page(current)?.cell(0).left_child();
 
             let is_leaf = self.get_page(current)?.is_leaf();
-            self.accessor_mut()?.release(current);
+            // (the root stays latched, see [Self::get_right_most])
+            if !self.is_root(current) {
+                self.accessor_mut()?.release(current);
+            }
 
             // If left child is not set it means we have reached up a leaf node.
             if let Some(child) = left_child {
@@ -617,9 +625,14 @@ where
             return Err(BtreeError::BtreeEmpty);
         };
 
-        let left_most_position = self.get_left_most()?;
+        // The position is looked up by the iterator's own tree, which keeps the root latched from
+        // the lookup on (our own latch on the root may be exclusive: it goes first).
+        let root = self.get_root();
+        self.accessor_mut()?.release(root);
+        let mut tree = self.cloned_shared();
+        let left_most_position = tree.get_left_most()?;
         BtreePositionalIterator::from_position(
-            self.cloned_shared(),
+            tree,
             left_most_position.entry(),
             left_most_position.slot() as isize,
             IterDirection::Forward,
@@ -634,9 +647,16 @@ where
             return Err(BtreeError::BtreeEmpty);
         };
 
-        let right_most_position = self.get_right_most()?;
+        // (see [Self::iter_forward])
+        let root = self.get_root();
+        self.accessor_mut()?.release(root);
+        let mut tree = self.cloned_shared();
+        if tree.is_empty()? {
+            return Err(BtreeError::BtreeEmpty);
+        };
+        let right_most_position = tree.get_right_most()?;
         BtreePositionalIterator::from_position(
-            self.cloned_shared(),
+            tree,
             right_most_position.entry(),
             right_most_position.slot() as isize,
             IterDirection::Forward,
